@@ -32,6 +32,18 @@ CHECKS = {
     "C07": ("Two to four executions of the real strategy in one symbolic run with the map parameters / changed average "
             "/ second series as solver variables: affine commutation in values and time, locality, additivity, "
             "weights summing to one and non-negative.", "1 C07"),
+    "C02": ("The documented pipeline Weaver -> [append_one_sample] -> recreate_from_average -> integral_match run as a "
+            "whole on symbolic averages for all six strategies: every original interval's mean under the target rule "
+            "equals its original average; rectangle rule: block averaging returns the original abscissae and "
+            "averages.", "1 C02"),
+    "C08": ("One inductive step per operation from an arbitrary symbolic Weaver state (covers histories of any length "
+            "within the size bound) plus all bounded operation sequences followed by recreate + match.", "1 C08"),
+    "C09": ("Inductive step over all operation kinds from arbitrary well-formed states incl. the state aliasing the "
+            "caller's arrays: well-formedness, caller data and original untouched, restore_original equivalence.",
+            "1 C09"),
+    "C20": ("Every invalid-argument class with its invalid region symbolic (or a list of wrong names) on arbitrary "
+            "fresh/tracked/reshaped states: ValueError and the six state arrays are the same objects with the same "
+            "terms.", "1 C20"),
     "C11": ("process.truncate and the Weaver's truncate/slice operations on symbolic series and symbolic bounds (each "
             "comparison of the neighbour search forks, so bounds inside/on/outside the data are separate paths) against "
             "a declarative oracle, incl. the reference after a reshape; index forms enumerated against Python slicing.",
